@@ -97,7 +97,8 @@ def configs(tier):
 
 def check_race(cfg, ch, res):
     shape, lname, factor, qsize = cfg[:4]
-    lp = len(cfg) > 4 and bool(cfg[4])  # line-level preemption of worker handlers by the executor thread
+    lp = len(cfg) > 4 and cfg[4] is True  # line-level preemption of worker handlers by the executor thread
+    tp = len(cfg) > 4 and cfg[4] == "thread"  # preemption of the executor thread between the lines of Sampler.add
     schedule = SHAPES[shape]()
     hosts, cores = LAYOUTS[lname]
     extra = {}
@@ -117,7 +118,7 @@ def check_race(cfg, ch, res):
 
     drv.SamplePostprocessor.__call__ = recording_pp
     try:
-        r = racesim.run_race(schedule, hosts, cores, behaviour_for(shape), ch, horizon=HORIZON, cfg_extra=extra, store=True, line_preempt=lp)
+        r = racesim.run_race(schedule, hosts, cores, behaviour_for(shape), ch, horizon=HORIZON, cfg_extra=extra, store=True, line_preempt=lp, thread_preempt=tp)
     finally:
         drv.SamplePostprocessor.__call__ = orig_pp
     names = [n for _t, n, _m in r.received]
@@ -332,6 +333,11 @@ def run(tier, seed):
     deep = [tuple(c) + (True,) for c in deep]
     r2 = explore.explore_parallel(check_race, deep, 2, seed=seed, max_exec_per_subtree=150 if tier == "quick" else 40000)
     res.merge(r2)
+    # the other direction: the executor thread preempted inside Sampler.add by a wake-up that is due at the same instant (bound 1)
+    tcfgs = [(c[0], c[1], c[2], c[3], "thread") for c in cfgs if c[0] in ("S9", "S12") and c[1] == "1x1" and c[2] == 1 and c[3] is None]
+    r3 = explore.explore_parallel(check_race, tcfgs, 1, seed=seed)
+    res.merge(r3)
+    res.extra["configurations_with_executor_thread_preemption"] = len(tcfgs)
     differential(res)
     check_es_store_buffer(res, 4 if tier == "quick" else 6)
     res.extra["configurations"] = len(cfgs)
